@@ -50,7 +50,7 @@ def run(R):
     R.coq_files(FILES)
     R.coq_property()
     R.audit()
-    n = 1200 if R.tier == "quick" else 20000
+    n = 500 if R.tier == "quick" else 12000
     obs = observe(R, n)
     total = 0
     seen = set()
